@@ -220,7 +220,7 @@ def check(res, tier, replay=None):
                 for cfg, spec, sc in load_replay(replay):
                     found |= run_config(res, h, drv, emu, d, cfg, [sc], specs=[spec])
             else:
-                nrand, nbound = (4, 1) if tier == "quick" else (40, 10)
+                nrand, nbound = (4, 1) if tier == "quick" else (60, 15)
                 scripts = [fs_lib.gen_prog(r, res) for _ in range(nrand)] + [fs_lib.gen_prog(r, res, boundary=True) for _ in range(nbound)]
                 for sc in scripts[:2]:
                     res.sample({"script": sc[:300]})
